@@ -46,3 +46,37 @@ func Date(year int, month Month, day, hour, min, sec, nsec int, loc *time.Locati
 }
 
 var UTC = time.UTC
+
+func Until(t Time) Duration { return t.Sub(Now()) }
+
+// Tick is NewTicker(d).C.
+func Tick(d Duration) *mc.Chan[time.Time] { return mc.NewTicker(d).C }
+
+func ParseDuration(s string) (Duration, error) { return time.ParseDuration(s) }
+func Unix(sec, nsec int64) Time                { return time.Unix(sec, nsec) }
+func UnixMilli(ms int64) Time                  { return time.UnixMilli(ms) }
+
+type (
+	Weekday  = time.Weekday
+	Location = time.Location
+)
+
+var Local = time.Local
+
+const (
+	January   = time.January
+	February  = time.February
+	March     = time.March
+	April     = time.April
+	May       = time.May
+	June      = time.June
+	July      = time.July
+	August    = time.August
+	September = time.September
+	October   = time.October
+	November  = time.November
+	December  = time.December
+	Sunday    = time.Sunday
+	Monday    = time.Monday
+	RFC3339   = time.RFC3339
+)
